@@ -107,6 +107,19 @@ theorem template_span_correct (d : Delims) (ps : List Piece) (t : Tok) (h : t âˆ
     Located (assemble d ps) t.start t.value :=
   LexDelimsL.lex_located d ps t h hk
 
+/-- **The block-comment token**: for every piece list and every delimiter set, the `comment` token yielded at
+`{% endcomment %}` has as its value exactly the source text that starts at its start index (the end of
+the opening `{% comment %}`): `comment_index` / `comment_text` are kept in step over nested comments,
+raw blocks, output statements and text inside the comment. -/
+theorem comment_token_span_correct (d : Delims) (ps : List Piece) (t : Tok) (h : t âˆˆ (lex d ps).1)
+    (hk : t.kind = .comment) : Located (assemble d ps) t.start t.value :=
+  LexDelimsL.lex_comment_located d ps t h hk
+
+example : (lex default [.tag false [' '] "comment".toList [] [] [] false, .text "a ".toList,
+      .out false [] "x".toList [] false, .tag false [] "endcomment".toList [] [] [] false]).1.map
+      (fun t => (t.kind, String.ofList t.value, t.start))
+    = [(.tag, "comment", 3), (.comment, "a {{x}}", 12), (.tag, "endcomment", 21)] := by decide +kernel
+
 end template
 
 /-! ## positions of errors -/
